@@ -295,7 +295,7 @@ theorem outer_shift (addr : Bytes) (k : Nat) : ∀ (fuel : Nat) (st : St) (errs 
       | none => exact ih st' errs
       | some x =>
         simp only
-        by_cases hn : x.nonfatal = true
+        by_cases hn : nonfatalErr x = true
         · rw [if_pos hn, if_pos hn]; exact ih st' _
         · rw [if_neg hn, if_neg hn]
     · rw [if_neg hl, if_neg hl]
